@@ -48,6 +48,41 @@ type Ev struct {
 type Case struct {
 	Mock bool `json:"mock"`
 	Evs  []Ev `json:"evs"`
+	// schedule perturbation through the uci.VerifSetSched hook: at every named point of the driver's
+	// goroutines a yield / short sleep is injected pseudo-randomly from Seed; the point Hot always gets HotUs.
+	Sched *Sched `json:"sched,omitempty"`
+}
+
+// Sched describes the perturbation of one session.
+type Sched struct {
+	Seed  uint64 `json:"seed"`
+	Hot   string `json:"hot"`
+	HotUs int    `json:"hot_us"`
+}
+
+var schedPoints = []string{"out:send", "read:send", "read:sent", "handle:line", "int:start", "int:select", "int:fin", "int:line", "go:search", "go:searched", "go:wait", "go:bestmove"}
+
+func (sc *Sched) install() {
+	var n atomic.Uint64
+	uci.VerifSetSched(func(point string) {
+		k := n.Add(1)
+		h := (sc.Seed + k*0x9e3779b97f4a7c15) ^ uint64(len(point))*0xbf58476d1ce4e5b9
+		h ^= h >> 29
+		h *= 0x94d049bb133111eb
+		h ^= h >> 32
+		switch {
+		case point == sc.Hot:
+			if sc.HotUs == 0 {
+				runtime.Gosched()
+			} else {
+				time.Sleep(time.Duration(sc.HotUs) * time.Microsecond)
+			}
+		case h%6 == 0:
+			runtime.Gosched()
+		case h%40 == 1:
+			time.Sleep(time.Duration(h>>20%150) * time.Microsecond)
+		}
+	})
 }
 
 const ceiling = 20 * time.Second
@@ -197,7 +232,7 @@ var lineRes = []*regexp.Regexp{
 	regexp.MustCompile(`^option name \S+ type \S+ default \S+( min \S+ max \S+)?$`),
 	regexp.MustCompile(`^bestmove ([a-h][1-8][a-h][1-8][nbrq]?|0000)( ponder [a-h][1-8][a-h][1-8][nbrq]?)?$`),
 	regexp.MustCompile(`^info string search \d+ line \d+$`),
-	regexp.MustCompile(`^info depth \d+ score (cp -?\d+|mate -?\d+) nodes \d+ time \d+ hashfull \d+ pv( [a-h][1-8][a-h][1-8][nbrq]?)*\s?$`),
+	regexp.MustCompile(`^info depth \d+ score (cp|mate) -{0,2}\d+ nodes \d+ time \d+ hashfull \d+ pv( [a-h][1-8][a-h][1-8][nbrq]?)*\s?$`),
 	regexp.MustCompile(`^info depth \d+ nodes \d+$`),
 	regexp.MustCompile(`^[1-8pnbrqkPNBRQK/]+ [wb] (-|[KQkq]+) (-|[a-h][36]) \d+ \d+$`),
 }
@@ -240,6 +275,10 @@ func runCase(c Case, rec *evid.Rec) error {
 		opts = append(opts, uci.WithSearch(m))
 	}
 	d := uci.NewDriver(opts...)
+	if c.Sched != nil {
+		c.Sched.install()
+		defer uci.VerifSetSched(nil)
+	}
 	done := make(chan struct{})
 	go func() { d.Run(); close(done) }()
 
@@ -469,6 +508,18 @@ func checkCase(c Case, rec *evid.Rec) error {
 
 // ---- generators ----
 
+func drawSched(t *rapid.T) *Sched {
+	if gen.Chance(t, 1, 4, "noSched") {
+		return nil
+	}
+	sc := &Sched{Seed: uint64(gen.Draw(t, 0, 1<<30, "schedSeed"))}
+	if gen.Chance(t, 3, 4, "hot") {
+		sc.Hot = schedPoints[gen.Draw(t, 0, len(schedPoints)-1, "hotPoint")]
+		sc.HotUs = []int{0, 20, 100, 400, 1500}[gen.Draw(t, 0, 4, "hotUs")]
+	}
+	return sc
+}
+
 func preamble(t *rapid.T) []Ev {
 	var evs []Ev
 	if gen.Chance(t, 1, 2, "uci") {
@@ -674,6 +725,12 @@ func sweep(rec *evid.Rec) bool {
 					evs = append(evs, Ev{K: "send", Arg: "isready"})
 				}
 				cs := Case{Mock: true, Evs: evs}
+				if rep > 0 { // repetition 0 runs unperturbed, the others with a hot point that cycles through all points
+					cs.Sched = &Sched{Seed: uint64(ix) * 7919, Hot: schedPoints[rep%len(schedPoints)], HotUs: []int{0, 50, 300, 1000}[rep/len(schedPoints)%4]}
+				}
+				if cs.Sched != nil {
+					rec.Class("sessions_with_perturbed_schedule")
+				}
 				if err := checkCase(cs, rec); err != nil {
 					rec.Violate("sweep", err.Error(), cs)
 					return false
@@ -689,7 +746,7 @@ func TestC13(t *testing.T) {
 	_ = srch.MaskTime
 	evid.Main(t, "C13", func(rec *evid.Rec) {
 		rec.Rule("in-process uci.Driver on pipes, race detector on. Controllable mock search (announces start, emits info lines and finishes on command, on stop, or never): systematic sweep command {isready, stop, quit, end of input, ponderhit} x phase {before the search started, right after start, after two info lines, coincident with the finish signal in three orders, after bestmove}, repeated; rapid grammar-generated conforming sessions (uci/isready/setoption/debug/ucinewgame preamble, 1..5 rounds of position + go {infinite, depth, nodes, clocks, movetime, tiny clocks, ponder} with drawn commands at drawn phases, ending by finish / stop / coincident command / quit / end of input / hard timer). Real search with small limits and drawn microsecond delays before isready/stop/quit. Transcript oracle: every line matches the line grammar (no torn lines); one bestmove per go, after all info lines of that search and none of a later search before it; readyok k never before isready k, totals equal; Run returns after quit / end of input; afterwards no goroutine has a driver frame; no panic; race detector silent. Waits have a 20 s ceiling: a schedule whose wait expires three times in a row is a violation (deadlock if all driver goroutines are parked, unresponsive otherwise); an expiry that does not reproduce is inconclusive (exit 2). Non-trivial = a command delivered while a search was in flight or coincident with its end; distinct by schedule")
-		rec.Assume("the Go scheduler is not under harness control: interleavings inside the driver are sampled (repetition, GOMAXPROCS variation across shards, race detector), not enumerated")
+		rec.Assume("the Go scheduler is not fully under harness control: interleavings inside the driver are sampled - repetition, GOMAXPROCS variation across shards, the race detector, and yields / sleeps injected at 12 named points of the driver's goroutines through the uci.VerifSetSched hook (a drawn 'hot' point is delayed every time it is reached) - not enumerated")
 		rec.Note("GOMAXPROCS=%d", runtime.GOMAXPROCS(0))
 		if !sweep(rec) {
 			return
@@ -708,6 +765,7 @@ func TestC13(t *testing.T) {
 					break
 				}
 			}
+			c.Sched = drawSched(t)
 			rec.Current("mock_session", c)
 			if rec.WantSample("mock_session") {
 				rec.Sample("mock_session", c)
@@ -731,6 +789,7 @@ func TestC13(t *testing.T) {
 					break
 				}
 			}
+			c.Sched = drawSched(t)
 			rec.Current("real_session", c)
 			if rec.WantSample("real_session") {
 				rec.Sample("real_session", c)
